@@ -32,4 +32,6 @@ def queries(tier):
     # registered id's index, the address of that class's static v-table pointer (shared harness with C05)
     from checks import C05
     qs += C05.indirect_queries(tier)
+    from checks import update_common
+    qs += update_common.c09_publish_queries(tier)
     return qs
